@@ -357,6 +357,42 @@ def ephemeral_classes(col, contract):
             del contract.disagreements[:]
 
 
+class _Box:
+    def __repr__(self):
+        return 'Box(%s)' % ', '.join(sorted(self.__dict__))
+
+
+def created_levels_use_the_calls_registry(col):
+    """Assign(.., missing=factory) inside Glommer.glom: every level the factory creates is written through THAT Glommer's
+    registry - its handlers see all levels, handlers registered on the module-level registry or on another Glommer none"""
+    import glom as glom_pkg
+    seen_g, seen_other, seen_global = [], [], []
+    g, other = Glommer(), Glommer()
+    g.register(_Box, assign=lambda o, k, v: (seen_g.append(k), setattr(o, k, v)) and None)
+    other.register(_Box, assign=lambda o, k, v: (seen_other.append(k), setattr(o, k, v)) and None)
+    glom_pkg.register(_Box, assign=lambda o, k, v: (seen_global.append(k), setattr(o, k, v)) and None)
+    for spelling, path in (('string', 'k1.k2.k3'), ('Path', Path('k1', 'k2', 'k3'))):
+        del seen_g[:], seen_other[:], seen_global[:]
+        root = _Box()
+        got = call(g.glom, root, Assign(path, 5, missing=_Box))
+        col.case(('missing-levels-registry', spelling), True)
+        col.count('api_lookups', 3)
+        ok = got.ok and sorted(seen_g) == ['k1', 'k2', 'k3'] and not seen_other and not seen_global and \
+            getattr(getattr(getattr(root, 'k1', None), 'k2', None), 'k3', None) == 5
+        if not ok:
+            col.violation('C13/created-levels-written-through-another-registry',
+                          "Glommer.glom(Box(), Assign(%s, 5, missing=Box)): %r ; this Glommer's assign handler saw %s, another Glommer's %s, "
+                          'the module-level one %s (expected k1, k2, k3 / nothing / nothing)' % (short(path), got if not got.ok else 'returned',
+                                                                                                sorted(seen_g), seen_other, seen_global), None)
+    # and the other way round: module-level glom() uses the module-level handler on every level
+    del seen_g[:], seen_other[:], seen_global[:]
+    got = call(glom_pkg.glom, _Box(), Assign('k1.k2.k3', 5, missing=_Box))
+    col.count('api_lookups', 3)
+    if not got.ok or sorted(seen_global) != ['k1', 'k2', 'k3'] or seen_g or seen_other:
+        col.violation('C13/created-levels-written-through-another-registry', 'module-level glom: %r, module-level handler saw %s, Glommers %s %s'
+                      % (got if not got.ok else 'returned', sorted(seen_global), seen_g, seen_other), None)
+
+
 def glommer_driver(default_types):
     def make():
         g = Glommer(register_default_types=default_types)
@@ -527,6 +563,7 @@ def run(ctx):
             reregistration(col, contract)
             repeated_registration(col, contract)
             ephemeral_classes(col, contract)
+            created_levels_use_the_calls_registry(col)
         fams = families()
         for name, registrable, classes in fams:
             instances = [make_instance(c) for c in classes]
